@@ -244,6 +244,10 @@ def boundary(rng, k=None):
         lambda: Quantity(sympy.nan, dimension=units.mass) + t,
         lambda: Abs(Quantity(-2 * units.volt)) + Symbol("U", units.voltage),
         lambda: x / t - Quantity(3 * units.meter / units.second),
+        lambda: x**Quantity(2),                                   # a bare quantity in the exponent stands for its value
+        lambda: x**Quantity(2) + Quantity(3 * units.meter**2),
+        lambda: x**Quantity(2 * units.second),                    # dimensional: refused
+        lambda: Max(t**Quantity(Rational(1, 2)), sympy.sqrt(t), evaluate=False),
     ]
     if k is None:
         k = rng.randrange(len(cases))
@@ -470,7 +474,7 @@ def wrapper_stream(ctx, n_random):
 # ---------------------------------------------------------------------------------------------
 
 STATIC = ["C06_unique_dim_ok_iff", "C06_unique_dim_refuses_iff", "C06_unique_dim_order_free", "C06_unique_dim_of_terms",
-    "C06_add_dim", "C06_minmax_dim", "C06_child_error", "C06_mul_dim", "C06_pow_refuses_iff", "C06_pow_rational",
+    "C06_add_dim", "C06_minmax_dim", "C06_child_error", "C06_mul_dim", "C06_pow_refuses_iff", "C06_pow_rational", "C06_pow_quantity",
     "C06_deriv_dim", "C06_deriv_dim2", "C06_fun_dim", "C06_leaves", "C06_zero_first_accepted",
     "C06_infer_then_collect", "C06_infer_then_quantity"]
 
